@@ -10,8 +10,8 @@ LEVEL = "exploration"
 RULE = (
     "Model-based history testing: Hypothesis generates a model (profiles W/F/N), simulates it with a generated "
     "project-wide absence list, then applies a generated sequence of 1-5 remove_absence_time_list() / "
-    "insert_absence_time_list(L) calls, L = distinct indices drawn from [0, N+5] (step 0, steps already present, "
-    "steps beyond the end). Oracle after every call: no exception; every per-step log of every object changed by "
+    "insert_absence_time_list(L) calls, L = indices drawn from [0, N+5] (step 0, steps already present, "
+    "steps beyond the end, and lists naming a step twice). Oracle after every call: no exception; every per-step log of every object changed by "
     "the same number of entries; project.time == the common length; entries at inserted indices show no WORKING "
     "task/worker/facility, zero cost at every level and the remaining work of the preceding entry (initial "
     "remaining work at index 0); on an absence-free result insert(L) followed by remove() restores the previous "
@@ -45,6 +45,8 @@ def _case(draw, cfg):
                 st.just(["remove"]),
                 st.tuples(st.just("insert"), st.lists(st.integers(0, 60), min_size=1, max_size=4)).map(lambda t: [t[0], t[1]]),
                 st.tuples(st.just("insert"), st.lists(st.sampled_from([0, 0, 1, 2]), min_size=1, max_size=2)).map(lambda t: [t[0], t[1]]),
+                # a list that names a step twice ("any list of step indices")
+                st.tuples(st.just("insert_dup"), st.lists(st.integers(0, 20), min_size=1, max_size=3)).map(lambda t: [t[0], t[1] + t[1][:1]]),
             ),
             min_size=1,
             max_size=5,
@@ -149,7 +151,10 @@ def check(case):
                 res.fail("C18.remove_grew", "%s: logs grew from %d to %d" % (where, n, n2))
             n = n2
         else:
-            L = sorted(set(x % (n + 6) for x in op[1]))
+            L = sorted(x % (n + 6) for x in op[1])
+            if op[0] != "insert_dup":
+                L = sorted(set(L))
+            res.cls("insert_list_with_repeated_step", len(set(L)) != len(L))
             res.cls("insert_step0", 0 in L)
             res.cls("insert_beyond_end", any(x >= n for x in L))
             res.cls("insert_duplicate_of_present", any(x in absence_now for x in L))
